@@ -92,9 +92,10 @@ def scenario(ctx, p):
     else:
         inst.zone_status[z] = r5.build_zone_status(z, 1, 1, 50, 120, sensor, 730, 0, 0)
     # current mode (AT5 limits follow the mode)
-    if call == "ac_temp" and vary == "config" and g.n == 5:
+    if call == "ac_temp" and vary == "config":
+        # the mode last reported is free (AT5 limits follow it; an AT4 set-point request does not depend on it)
         mode_code = ctx.int("mode_code", 0, 9)
-        ctx.assume(sym_or(*[mode_code == c for c in r5.AC_MODE]))
+        ctx.assume(sym_or(*[mode_code == c for c in (r5.AC_MODE if g.n == 5 else r4.AC_MODE)]))
     else:
         mode_code = 4
     env["mode_code"] = mode_code
@@ -208,3 +209,162 @@ def scenario(ctx, p):
         out["kinds"] = [k for _, k, _ in con.requests[n0:]]
         out["failures"] = rig.task_failures()
     return out
+
+
+def sequence_instances(tier):
+    """Call histories on one client (both generations): what a frame carries depends only on the call and on what the console
+    last reported, never on what this client sent before."""
+    out = []
+    for g in (4, 5):
+        out.append({"kind": "call_sequence", "gen": g, "what": "timers_two_acs", "call": "sequence", "vary": "history"})
+        out.append({"kind": "call_sequence", "gen": g, "what": "zone_calls_held", "call": "sequence", "vary": "history"})
+        out.append({"kind": "call_sequence", "gen": g, "what": "ac_calls_held", "call": "sequence", "vary": "history"})
+    return out
+
+
+def run_sequence(ctx, p, label):
+    """Runs a two-call history and checks both frames against the reference reading. Returns nothing; obligations carry `label`."""
+    A = api()
+    g = Gen(p["gen"])
+    what = p["what"]
+    inst = Installation.simple(g.n, n_acs=2, zones_per_ac=2)
+    inst.timers = {0: (0, 6, 30, 1, 0, 0), 1: (1, 0, 0, 0, 21, 45)}
+    held = what.endswith("_held")
+    from ref import at4 as r4
+    from ref import at5 as r5
+    with ApiRig(ctx, g, inst) as rig:
+        rig.start()
+        rig.run(1.0)
+        ctx.check(rig.init_result is True, label, detail="handshake failed")
+        con = rig.console
+        mode = {"accept": True}
+        rig.net.on_connect = lambda net, n: (("accept", 0) if mode["accept"] else ("refuse",))
+        if held:
+            # the link goes down; both commands are accepted while it is down and go out together when it is back
+            mode["accept"] = False
+            rig.net.current().reset()
+            rig.run(1.5)
+        n0 = len(con.requests)
+        if what == "timers_two_acs":
+            types = list(A.AcTimerType)
+            acs = (ctx.choice("first_ac", 2), ctx.choice("second_ac", 2))
+            tts = (types[ctx.choice("first_type", 2)], types[ctx.choice("second_type", 2)])
+            sets = (bool(ctx.choice("first_set", 2)), bool(ctx.choice("second_set", 2)))
+            times = ((7, 15), (22, 40))
+
+            async def go():
+                for i in range(2):
+                    a = rig.ac(acs[i])
+                    if sets[i]:
+                        await a.set_quick_timer(tts[i], datetime.time(*times[i]))
+                    else:
+                        await a.clear_quick_timer(tts[i])
+            rig.spawn(go())
+            rig.run(3.0)
+            frames = [fr for _, k, fr in con.requests[n0:] if k == "timer_ctrl"]
+            detail = {"what": what, "acs": acs, "types": [t.name for t in tts], "set": sets, "frames": len(frames)}
+            ctx.check(len(frames) == 2, label, detail=detail)
+            for i, fr in enumerate(frames[:2]):
+                rep = inst.timers[acs[i]]
+                new = (0,) + times[i] if sets[i] else (1, 0, 0)
+                on, off = (new, rep[3:6]) if tts[i] is A.AcTimerType.ON_TIMER else (rep[0:3], new)
+                exp = [(on[0] << 7) | on[1], on[2], (off[0] << 7) | off[1], off[2]]
+                data = [int(b) for b in fr["data"]]
+                if g.n == 4:
+                    want = [0] * 32
+                    want[8 * acs[i]:8 * acs[i] + 4] = exp
+                    ok = data == want
+                else:
+                    ok = data[8:] == [acs[i]] + exp + [0, 0, 0, 0] and len(data) == 17
+                ctx.check(ok, label, detail=dict(detail, frame=i, data=bytes(data).hex()))
+            return
+        if what == "zone_calls_held":
+            calls = ("power_on", "damper", "temp", "power_off")
+            ci = (ctx.choice("first_call", 4), ctx.choice("second_call", 4))
+            zs = (ctx.choice("first_zone", 2), ctx.choice("second_zone", 2))
+
+            async def one(i):
+                z = rig.zone(zs[i])
+                c = calls[ci[i]]
+                if c == "power_on":
+                    await z.set_power(A.ZonePowerState.ON)
+                elif c == "power_off":
+                    await z.set_power(A.ZonePowerState.OFF)
+                elif c == "damper":
+                    await z.set_damper_percentage(40 + 15 * i)
+                else:
+                    await z.set_target_temperature(21 + 2 * i)
+
+            async def go():
+                await one(0)
+                await one(1)
+            rig.spawn(go())
+            rig.run(2.0)
+            mode["accept"] = True
+            rig.run(6.0)
+            frames = [fr for _, k, fr in con.requests[n0:] if k == "zone_ctrl"]
+            detail = {"what": what, "calls": [calls[c] for c in ci], "zones": zs, "frames": len(frames)}
+            ctx.check(len(frames) == 2, label, detail=detail)
+            for i, fr in enumerate(frames[:2]):
+                d = [int(b) for b in fr["data"]]
+                c = r4.group_control(d) if g.n == 4 else r5.zone_control_record(d[8:12])
+                num = c["group_number"] if g.n == 4 else c["zone_number"]
+                PW = r4.CTRL_GROUP_POWER if g.n == 4 else r5.CTRL_ZONE_POWER
+                ST = r4.CTRL_GROUP_SETTING if g.n == 4 else r5.CTRL_ZONE_SETTING
+                power = PW.get(c["power_code"], "KEEP")
+                setting = ST.get(c["setting_code"], "KEEP")
+                name = calls[ci[i]]
+                if name == "power_on":
+                    ok = power == "TURN_ON" and setting == "KEEP"
+                elif name == "power_off":
+                    ok = power == "TURN_OFF" and setting == "KEEP"
+                elif name == "damper":
+                    ok = power == "KEEP" and c["setting_code"] == 4 and c["value"] == 40 + 15 * i
+                else:
+                    t = 21 + 2 * i
+                    ok = power == "KEEP" and c["setting_code"] == 5 and c["value"] == (t if g.n == 4 else t * 10 - 100)
+                ctx.check(ok and num == zs[i], label, detail=dict(detail, frame=i, read=dict(number=num, power=power, setting=setting, value=c["value"])))
+            return
+        # ac_calls_held
+        calls = ("power_on", "mode_cool", "fan_low", "temp")
+        ci = (ctx.choice("first_call", 4), ctx.choice("second_call", 4))
+        acs = (ctx.choice("first_ac", 2), ctx.choice("second_ac", 2))
+
+        async def one(i):
+            a = rig.ac(acs[i])
+            c = calls[ci[i]]
+            if c == "power_on":
+                await a.set_power(A.AcPowerControl.TURN_ON)
+            elif c == "mode_cool":
+                await a.set_mode(A.AcMode.COOL, power_on=False)
+            elif c == "fan_low":
+                await a.set_fan_speed(A.AcFanSpeed.LOW)
+            else:
+                await a.set_target_temperature(20 + 3 * i)
+
+        async def go():
+            await one(0)
+            await one(1)
+        rig.spawn(go())
+        rig.run(2.0)
+        mode["accept"] = True
+        rig.run(6.0)
+        frames = [fr for _, k, fr in con.requests[n0:] if k == "ac_ctrl"]
+        detail = {"what": what, "calls": [calls[c] for c in ci], "acs": acs, "frames": len(frames)}
+        ctx.check(len(frames) == 2, label, detail=detail)
+        for i, fr in enumerate(frames[:2]):
+            d = [int(b) for b in fr["data"]]
+            if g.n == 4:
+                c = r4.ac_control(d)
+                sp = ("set", c["sp_value"]) if c["sp_type"] == 1 else ("keep",) if c["sp_type"] == 0 else ("other", c["sp_type"])
+                tabs = (r4.CTRL_AC_POWER, r4.CTRL_AC_MODE, r4.CTRL_AC_FAN)
+            else:
+                c = r5.ac_control_record(d[8:12])
+                sp = ("set", (c["sp_value"] + 100) // 10) if c["sp_control"] == 0x40 else ("keep",)
+                tabs = (r5.CTRL_AC_POWER, r5.CTRL_AC_MODE, r5.CTRL_AC_FAN)
+            power, md, fan = tabs[0].get(c["power_code"], "KEEP"), tabs[1].get(c["mode_code"], "KEEP"), tabs[2].get(c["fan_code"], "KEEP")
+            name = calls[ci[i]]
+            want = {"power_on": ("TURN_ON", "KEEP", "KEEP", ("keep",)), "mode_cool": ("KEEP", "COOL", "KEEP", ("keep",)),
+                    "fan_low": ("KEEP", "KEEP", "LOW", ("keep",)), "temp": ("KEEP", "KEEP", "KEEP", ("set", 20 + 3 * i))}[name]
+            ctx.check((power, md, fan, sp) == want and c["ac_number"] == acs[i], label,
+                      detail=dict(detail, frame=i, read=dict(ac=c["ac_number"], power=power, mode=md, fan=fan, set_point=sp), want=want))
